@@ -217,6 +217,7 @@ type sim struct {
 	gatesNew []*gate
 	calls    []*call
 	popWait  []*popWaiter
+	valWait  []*popWaiter // validation workers waiting for work (released when their queue holds something)
 	qnames   map[*rpcQueue]string
 	nameQueue func(q *rpcQueue) string
 
@@ -477,6 +478,44 @@ func (s *sim) collect() {
 			s.lastEvent.writer = true
 		}
 	}
+	// validation workers: one waiting worker per queued request continues (workers of one node are
+	// interchangeable; nodes in creation order)
+	s.mu.Lock()
+	vw := s.valWait
+	s.valWait = nil
+	s.mu.Unlock()
+	if len(vw) > 0 {
+		budget := map[*validation]int{}
+		var keep []*popWaiter
+		for _, pw := range vw {
+			if pw.gone {
+				continue
+			}
+			if _, ok := budget[pw.val]; !ok {
+				budget[pw.val] = len(pw.val.validateQ)
+			}
+			if budget[pw.val] > 0 && !pw.scheduled {
+				budget[pw.val]--
+				pw.scheduled = true
+				pw := pw
+				name := "?"
+				for _, n := range s.nodes {
+					if n.ps != nil && n.ps.val == pw.val {
+						name = n.name
+					}
+				}
+				s.asap("validation-worker-takes "+name, func() { close(pw.ch) })
+				s.lastEvent.writer = true
+				continue
+			}
+			if !pw.scheduled {
+				keep = append(keep, pw)
+			}
+		}
+		s.mu.Lock()
+		s.valWait = append(keep, s.valWait...)
+		s.mu.Unlock()
+	}
 	// writes
 	sort.SliceStable(dirty, func(i, j int) bool { return dirty[i].id < dirty[j].id })
 	for _, p := range dirty {
@@ -514,8 +553,11 @@ var debugState = os.Getenv("VERIF_DEBUG_STATE") != ""
 
 type popWaiter struct {
 	q    *rpcQueue // nil for the validated-message turnstile (name is preset)
+	val  *validation
 	ch   chan struct{}
 	name string
+	gone bool
+	scheduled bool
 }
 
 // scheduleWriters makes every take of an RPC from an outbound queue a simulator event. Without
@@ -537,6 +579,27 @@ func (s *sim) scheduleWriters() {
 	// Validated messages are handed to the event loop one per quiescence, ordered by content: with
 	// several validation workers or asynchronous validators the hand-off order would otherwise be
 	// the Go scheduler's choice.
+	// Validation workers take from the (bounded) validation queue only at quiescence, one request
+	// per step: otherwise a worker that is woken by the first message of an RPC drains the queue
+	// while the event loop is still filling it, and whether message 33 of a long RPC meets a full
+	// queue would be the Go scheduler's choice.
+	verifYieldValFn = func(v *validation, point int) {
+		if point != verifValidateTake {
+			return
+		}
+		pw := &popWaiter{val: v, ch: make(chan struct{})}
+		s.mu.Lock()
+		s.valWait = append(s.valWait, pw)
+		s.mu.Unlock()
+		s.poke()
+		select {
+		case <-pw.ch:
+		case <-v.p.ctx.Done():
+			s.mu.Lock()
+			pw.gone = true
+			s.mu.Unlock()
+		}
+	}
 	// ... and so are message batches (two PublishBatch calls woken by the same event race for the
 	// one slot of the hand-off channel otherwise)
 	verifYieldBatchFn = func(b *MessageBatch, point int) {
@@ -605,6 +668,16 @@ func (s *sim) releaseWriters() {
 	verifYieldQueueFn = nil
 	verifYieldMsgFn = nil
 	verifYieldBatchFn = nil
+	verifYieldValFn = nil
+	s.mu.Lock()
+	vw := s.valWait
+	s.valWait = nil
+	s.mu.Unlock()
+	for _, pw := range vw {
+		if !pw.scheduled {
+			close(pw.ch)
+		}
+	}
 	s.mu.Lock()
 	pops := s.popWait
 	s.popWait = nil
